@@ -87,3 +87,7 @@ func (db *DB) VerifWatchdogRunOnce() bool {
 // VerifNextTxnTs returns the oracle's next commit timestamp.
 func (db *DB) VerifNextTxnTs() uint64 { return db.orc.nextTxnTs.Load() }
 
+
+// VerifReadMarkDoneUntil exposes the oracle's read watermark (used by the harness to
+// classify transactions that begin at or below the mark).
+func (db *DB) VerifReadMarkDoneUntil() uint64 { return db.orc.readMark.DoneUntil() }
